@@ -15,6 +15,17 @@ CHECKS = {
                      'graph, the Master conditions and the slave-after-Master order',
                 note='bounded: cluster size, ticks, deviations and faults as listed in the evidence; FIFO channels; atomic '
                      'handlers; OS threads, sockets and supervisord are replaced by the World harness'),
+    'C07': dict(engine='E1-cluster', category='model_checking', technique=E1, ref='DESIGN.md section 4, C07',
+                text='every schedule of ticks, deliveries, crashes, restarts (also quicker than detection), isolations, '
+                     'rejoins and directed stalls within the bounds is executed on the real cores; a monitor per (observer, '
+                     'peer) in observer-local ticks judges accuracy, completeness, invalidation, FATAL marking of lost '
+                     'processes, the fencing rule and every instance-state edge against its own copy of the graph',
+                note='accuracy judged only while the trace satisfies the premise of the statement; N<=3, inactivity_ticks in '
+                     '{2,3}, bounds in the evidence'),
+    'C16': dict(engine='E1-cluster', category='model_checking', technique=E1, ref='DESIGN.md section 4, C16',
+                text='all E1 membership explorations run with the internal-error monitor (CRIT record with traceback, non-RPCError '
+                     'exception from an XML-RPC method, exception escaping a proxy thread, un-marshallable result)',
+                note='bounded as the underlying explorations; the hostile-message product is part of the thorough tier'),
     'C11': dict(engine='E2-seq', category='exploration', technique=E2, ref='DESIGN.md section 4, C11',
                 text='every sequence (to the depth bound, or to the fixpoint of the product state space) of snapshots, '
                      'events, losses, removals and forced states over 2-3 instances is applied to the real ProcessStatus '
